@@ -209,6 +209,27 @@ def _score_lt(test):
     return None
 
 
+def _policy_names(ctx, f):
+    """Derive the local names the policy is written with (so that renaming a local
+    does not matter): K, M from ``K, M = self.hash_query(...)``; CON from
+    ``CON = self._run_optimizer(...)``; SR = the Name tested by the ``if`` around it."""
+    K = M = CON = SR = None
+    hq = None
+    for n in walk_local(f.node):
+        if isinstance(n, ast.Assign) and isinstance(n.value, ast.Call) and \
+                isinstance(n.value.func, ast.Attribute):
+            if n.value.func.attr == "hash_query" and isinstance(n.targets[0], ast.Tuple) \
+                    and len(n.targets[0].elts) == 2:
+                K, M = (e.id for e in n.targets[0].elts)
+                hq = n.value
+            elif n.value.func.attr == "_run_optimizer" and isinstance(n.targets[0], ast.Name):
+                CON = n.targets[0].id
+                for ifn, t in C.enclosing_ifs(f, n):
+                    if t and isinstance(ifn.test, ast.Name):
+                        SR = ifn.test.id
+    return K, M, CON, SR, hq
+
+
 def rule_policy(ctx):
     r = RuleResult("C14-POLICY", "lookup / run / overwrite policy", 6)
     ro = ctx.p.cls(C.REUSABLE, "ReusableOptimizer")
@@ -216,46 +237,49 @@ def rule_policy(ctx):
     C.require(f is not None, "_maybe_run_optimizer not found")
     fl = ctx.flow(f)
     cfg = fl.cfg
+    K, M, CON, SR, hq = _policy_names(ctx, f)
     runs = [(n, c) for n, c in fl.calls() if isinstance(c.func, ast.Attribute)
             and c.func.attr == "_run_optimizer"]
     C.require(runs, "call of _run_optimizer not found")
+    C.require(K is not None, "`key, missing = self.hash_query(...)` not found")
+    cache_k = f"self._cache[{K}]"
     # (a) dominated by should_run and by a raising cache_only test
     for n, c in runs:
         key = ctx.key(f, "C14-POLICY", "run-guards")
-        guards = [(C.unparse(i.test), t, i) for i, t in C.enclosing_ifs(f, c)]
-        in_should_run = any(g == "should_run" and t for g, t, _ in guards)
         co = [x for x in cfg.nodes if x.kind == "test" and isinstance(x.ast, ast.If)
               and C.unparse(x.ast.test) == "self.cache_only"
               and isinstance(x.ast.body[-1], ast.Raise)]
         co_dom = any(cfg.dominates(x.id, n.id) for x in co)
-        # should_run must be `missing or self.overwrite`
-        la = ctx.r.local_assignments(f).get("should_run", [])
-        sr_def = any(isinstance(v, ast.BoolOp) and isinstance(v.op, ast.Or)
-                     and {C.unparse(x) for x in v.values} == {"missing", "self.overwrite"}
-                     for v in la)
-        if in_should_run and co_dom and sr_def:
+        sr_def = False
+        if SR is not None:
+            la = ctx.r.local_assignments(f).get(SR, [])
+            sr_def = any(isinstance(v, ast.BoolOp) and isinstance(v.op, ast.Or)
+                         and {C.unparse(x) for x in v.values} == {M, "self.overwrite"}
+                         for v in la)
+        if SR is not None and co_dom and sr_def:
             r.ok(key, C.loc(f, c), "search only when missing/overwrite, never under cache_only")
         else:
             r.violation(key, C.loc(f, c), "a search can run although the entry is present and "
                         "overwrite is off, or although cache_only is set",
-                        in_should_run=in_should_run, cache_only_raises=co_dom,
-                        should_run_is_missing_or_overwrite=sr_def)
+                        guarded_by_flag=SR is not None, cache_only_raises=co_dom,
+                        flag_is_missing_or_overwrite=sr_def)
     # (b) hit path returns the stored record
     key = ctx.key(f, "C14-POLICY", "hit")
     hit_ok = False
     for n in walk_local(f.node):
-        if isinstance(n, ast.If) and C.unparse(n.test) == "should_run" and n.orelse:
-            txt = " ".join(ast.unparse(s) for s in n.orelse)
-            if "con = self._cache[h]" in txt.replace("  ", " ") and "_run_optimizer" not in txt:
+        if isinstance(n, ast.If) and SR and C.unparse(n.test) == SR and n.orelse:
+            txt = [ast.unparse(s_) for s_ in n.orelse]
+            if any(t == f"{CON} = {cache_k}" for t in txt) and \
+                    not any("_run_optimizer" in t for t in txt):
                 hit_ok = True
     rets = [n for n in walk_local(f.node) if isinstance(n, ast.Return)]
-    ret_ok = all(isinstance(x.value, ast.Tuple) and len(x.value.elts) == 2 and
-                 C.unparse(x.value.elts[1]) == "con" for x in rets) and rets
+    ret_ok = bool(rets) and all(isinstance(x.value, ast.Tuple) and len(x.value.elts) == 2 and
+                                C.unparse(x.value.elts[1]) == CON for x in rets)
     if hit_ok and ret_ok:
         r.ok(key, f.loc, "a hit returns the stored record without searching")
     else:
         r.violation(key, f.loc, "the hit path does not simply return the stored record")
-    # (c) stores under overwrite='improved'
+    # (c) stores
     stores = []
     for n in cfg.nodes:
         if n.kind == "stmt" and isinstance(n.ast, ast.Assign):
@@ -273,7 +297,7 @@ def rule_policy(ctx):
         else:
             i, tr = improved_if[0]
             tst = C.unparse(i.test)
-            if "not missing" not in tst:
+            if f"not {M}" not in tst:
                 why = "the 'improved' test does not require the entry to be present"
             if tr:
                 lt = [(_score_lt(g.test), gtr) for g, gtr in guards if _score_lt(g.test)]
@@ -286,7 +310,7 @@ def rule_policy(ctx):
                     olddef = ctx.r.local_assignments(f).get(old, [])
                     if not any(C.unparse(v) == f"self._cache[{C.unparse(t.slice)}]" for v in olddef):
                         why = "the compared old record is not the cached record of the same key"
-        if C.unparse(t.slice) != "h":
+        if C.unparse(t.slice) != K:
             why = "store uses a key other than the one looked up"
         if why:
             r.violation(key, C.loc(f, n.ast), why)
@@ -297,35 +321,46 @@ def rule_policy(ctx):
     ok = False
     for n in walk_local(f.node):
         if isinstance(n, ast.If) and _score_lt(n.test) and n.orelse:
-            txt = [ast.unparse(s) for s in n.orelse]
-            if any(s.startswith("con = ") and s.endswith(_score_lt(n.test)[1]) for s in txt) and \
-                    any(s == "should_run = False" for s in txt):
+            txt = [ast.unparse(s_) for s_ in n.orelse]
+            old = _score_lt(n.test)[1]
+            if any(t == f"{CON} = {old}" for t in txt) and any(t == f"{SR} = False" for t in txt):
                 ok = True
     if ok:
-        r.ok(key, f.loc, "worse result: old record returned, should_run=False")
+        r.ok(key, f.loc, "worse result: old record returned, searched-flag cleared")
     else:
         r.violation(key, f.loc, "when the new result is not better the fresh (worse) result "
                     "is still handed back")
     # (d) key from one hash_query
     key = ctx.key(f, "C14-POLICY", "one-key")
-    hq = [n for n in walk_local(f.node) if isinstance(n, ast.Call)
-          and isinstance(n.func, ast.Attribute) and n.func.attr == "hash_query"]
-    if len(hq) == 1 and [a for a in map(C.unparse, hq[0].args)] == ["inputs", "output", "size_dict"]:
-        r.ok(key, C.loc(f, hq[0]), "one hash_query(inputs, output, size_dict) per call")
+    hqs = [n for n in walk_local(f.node) if isinstance(n, ast.Call)
+           and isinstance(n.func, ast.Attribute) and n.func.attr == "hash_query"]
+    if len(hqs) == 1 and [a for a in map(C.unparse, hqs[0].args)] == ["inputs", "output", "size_dict"]:
+        r.ok(key, C.loc(f, hqs[0]), "one hash_query(inputs, output, size_dict) per call")
     else:
         r.violation(key, f.loc, "lookup and store keys may come from different hash_query calls "
                     "or not from the query's inputs/output/size_dict")
-    # search(): tree handed back is last_opt.tree only when searched, else reconstructed
-    s = ro.methods.get("search")
-    key = ctx.key(s, "C14-POLICY", "search")
-    txt = ast.unparse(s.node)
-    if "self._reconstruct_tree(inputs, output, size_dict, con)" in txt and "if searched" in txt:
-        r.ok(key, s.loc, "non-searched queries are rebuilt from the stored record")
+    # search(): tree handed back is the searched one only when searched, else reconstructed
+    s_ = ro.methods.get("search")
+    key = ctx.key(s_, "C14-POLICY", "search")
+    rec = [n for n in walk_local(s_.node) if isinstance(n, ast.Call)
+           and isinstance(n.func, ast.Attribute) and n.func.attr == "_reconstruct_tree"]
+    flagged = [n for n in walk_local(s_.node) if isinstance(n, ast.If)
+               and isinstance(n.test, ast.Name)
+               and any(isinstance(x, ast.Return) for x in n.body)]
+    mr = [n for n in walk_local(s_.node) if isinstance(n, ast.Assign)
+          and isinstance(n.value, ast.Call) and isinstance(n.value.func, ast.Attribute)
+          and n.value.func.attr == "_maybe_run_optimizer"]
+    good = bool(rec) and bool(flagged) and bool(mr) and isinstance(mr[0].targets[0], ast.Tuple) \
+        and flagged[0].test.id == mr[0].targets[0].elts[0].id \
+        and C.unparse(rec[0].args[-1]) == mr[0].targets[0].elts[1].id
+    if good:
+        r.ok(key, s_.loc, "non-searched queries are rebuilt from the stored record")
     else:
-        r.violation(key, s.loc, "search() does not rebuild the tree from the stored record on a hit")
+        r.violation(key, s_.loc, "search() does not rebuild the tree from the stored record on a hit")
     # update_from_tree
     u = ro.methods.get("update_from_tree")
     C.require(u is not None, "update_from_tree not found")
+    Ku, Mu, _, _, _ = _policy_names(ctx, u)
     for n in walk_local(u.node):
         if isinstance(n, ast.Assign) and any(isinstance(t, ast.Subscript)
                                              and C.unparse(t.value) == "self._cache"
@@ -333,7 +368,7 @@ def rule_policy(ctx):
             key = ctx.key(u, "C14-POLICY", "store")
             guards = [(C.unparse(i.test), tr, i) for i, tr in C.enclosing_ifs(u, n)]
             tests = [g for g, tr, _ in guards]
-            if any(g == "missing" and tr for g, tr, _ in guards):
+            if any(g == Mu and tr for g, tr, _ in guards):
                 r.ok(key, C.loc(u, n), "missing entry: write")
             elif any(g == "overwrite == 'improved'" and tr for g, tr, _ in guards):
                 if any(_score_lt(i.test) and tr for _, tr, i in guards):
